@@ -844,6 +844,13 @@ func (w *walker) stmt(s ast.Stmt, h held, async bool) (held, bool) {
 	case *ast.ReturnStmt:
 		for _, r := range x.Results {
 			w.expr(r, h, false, async)
+			// an exported method that returns the slice held in a field (or a local alias of it) hands the
+			// backing array to its caller: it has left the critical section (added after seeded change c20b)
+			if w.meth != nil && ast.IsExported(w.meth.name) && !async {
+				if f := w.sliceBase(r); f != "" {
+					w.sliceNote(w.snaps, f, r)
+				}
+			}
 		}
 		return h, true
 	case *ast.BranchStmt:
